@@ -305,6 +305,31 @@ func TestVerifProbe_SetAndRoundTrip(t *testing.T) {
 		if err != nil || yaml.Unmarshal(ym, &m3) != nil || !m.SlowEqual(m3) {
 			t.Fatalf("VERIF-FAIL: roundtrip: map YAML %s", ym)
 		}
+		// decoding into a receiver that already holds something else: the result equals the
+		// encoded value, nothing of the receiver's earlier content survives
+		for b := 0; b < 1<<len(mapKeys); b++ {
+			var us1, us2 Set[string]
+			var um1, um2 Map[string, int]
+			for i, k := range mapKeys {
+				if b&(1<<i) != 0 {
+					us1, us2 = us1.Set(k), us2.Set(k)
+					um1, um2 = um1.Set(k, 100+i), um2.Set(k, 100+i)
+				}
+			}
+			if json.Unmarshal(js, &us1) != nil || !s.Equal(us1) || us1.Len() != s.Len() {
+				t.Fatalf("VERIF-FAIL: roundtrip: set JSON %s decoded into a set holding subset %b gives %v", js, b, us1)
+			}
+			if yaml.Unmarshal(ys, &us2) != nil || !s.Equal(us2) || us2.Len() != s.Len() {
+				t.Fatalf("VERIF-FAIL: roundtrip: set YAML %s decoded into a set holding subset %b gives %v", ys, b, us2)
+			}
+			if json.Unmarshal(jm, &um1) != nil || !m.SlowEqual(um1) || um1.Len() != m.Len() {
+				t.Fatalf("VERIF-FAIL: roundtrip: map JSON %s decoded into a map holding subset %b gives %v", jm, b, um1)
+			}
+			if yaml.Unmarshal(ym, &um2) != nil || !m.SlowEqual(um2) || um2.Len() != m.Len() {
+				t.Fatalf("VERIF-FAIL: roundtrip: map YAML %s decoded into a map holding subset %b gives %v", ym, b, um2)
+			}
+			cases++
+		}
 		// values with slices, maps, pointers and omitted fields ("any value"): decoding must not
 		// let one entry share storage with another
 		var mr Map[string, verifRTVal]
